@@ -2,8 +2,8 @@
    Statements only; proofs are in Lib/FSFault13.v and Theory/TransformApply13.v, the model of
    InventoryTreeTransform.apply / GitTreeTransform.apply in Model/TransformApply13.v.
 
-   apply_model x flt f0 inv0        the code as it is   (apply_deletions BEFORE the metadata update)
-   apply_model_fixed x flt f0 inv0  the metadata update moved before apply_deletions
+   apply_model x flt f0 inv0      the code as it is (metadata update BEFORE apply_deletions, since c37d45c)
+   apply_model_old x flt f0 inv0  the order before c37d45c, documentation only
    flt : FNone | FPhase k e | FDel k e | FFin k e   -- the k-th syscall of that stage raises errno e
    o_stage : SPhase (raised inside the try-block, rollback ran) | SDel (raised in apply_deletions)
              | SFin (raised in finalize) | SDone
@@ -25,7 +25,7 @@ Theorem C13_fault_before_commit_restores_guarded :
     o_fs (apply_model x flt f0 inv0) = f0 /\
     o_inv (apply_model x flt f0 inv0) = inv0 /\
     exists e, o_exc (apply_model x flt f0 inv0) = Some e /\ forall n, e <> XRollback n.
-Proof. intros x flt f0 inv0. exact (phase_fault_restores false (apply_prog x) flt f0 inv0). Qed.
+Proof. intros x flt f0 inv0. exact (phase_fault_restores true (apply_prog x) flt f0 inv0). Qed.
 Print Assumptions C13_fault_before_commit_restores_guarded.
 
 (* ... and every fault index before the commit point does end there (ENOENT is swallowed on
@@ -34,63 +34,76 @@ Theorem C13_fault_before_commit_raises :
   forall x k e f0 inv0,
     e <> ENOENT -> k < List.length (g_phase (apply_prog x)) ->
     o_stage (apply_model x (FPhase k e) f0 inv0) = SPhase.
-Proof. intros x k e f0 inv0. exact (phase_fault_raises false (apply_prog x) k e f0 inv0). Qed.
+Proof. intros x k e f0 inv0. exact (phase_fault_raises true (apply_prog x) k e f0 inv0). Qed.
 Print Assumptions C13_fault_before_commit_raises.
 
-(* Success and failures after the try-block: the visible disk (everything outside the control
-   directory) is the layout the rename phase produced, whatever happens while discarding.
-   With the current order the inventory in stage SDel is the OLD one. *)
+(* Every outcome of the code as it is (metadata update BEFORE apply_deletions) is all-or-nothing:
+   (old disk, old inventory)  or  (new visible layout, new inventory), for EVERY transform state,
+   fault kind and fault index.  "visible" = everything outside the control directory; phase_fs is the
+   layout the rename phase produced.  In particular a failure while discarding replaced content
+   (stage SDel) never leaves the metadata describing the old layout. *)
+Theorem C13_metadata_first_all_or_nothing :
+  forall roots x flt f0 inv0,
+    wf f0 -> hidden_prog roots (apply_prog x) = true ->
+    o_dirty (apply_model x flt f0 inv0) = false ->
+    (o_fs (apply_model x flt f0 inv0) = f0 /\ o_inv (apply_model x flt f0 inv0) = inv0) \/
+    (visible roots (o_fs (apply_model x flt f0 inv0)) = visible roots (phase_fs (apply_prog x) flt f0) /\
+     o_inv (apply_model x flt f0 inv0) = x_inv_new x).
+Proof.
+  intros roots x flt f0 inv0 Hwf Hh Hd.
+  pose proof (outcome_classification true roots (apply_prog x) flt f0 inv0 Hwf Hh Hd) as H.
+  unfold apply_model. rewrite <- (apply_prog_inv_new x).
+  destruct (o_stage (run_with_fault true (apply_prog x) flt f0 inv0)); [left | right | right | right]; exact H.
+Qed.
+Print Assumptions C13_metadata_first_all_or_nothing.
+
+(* the same by stage: which side of the dichotomy each failure lands on *)
 Theorem C13_outcome_classification :
   forall roots x flt f0 inv0,
     wf f0 -> hidden_prog roots (apply_prog x) = true ->
     o_dirty (apply_model x flt f0 inv0) = false ->
     match o_stage (apply_model x flt f0 inv0) with
     | SPhase => o_fs (apply_model x flt f0 inv0) = f0 /\ o_inv (apply_model x flt f0 inv0) = inv0
-    | SDel => visible roots (o_fs (apply_model x flt f0 inv0)) = visible roots (phase_fs (apply_prog x) flt f0) /\
-              o_inv (apply_model x flt f0 inv0) = inv0
-    | SFin | SDone =>
+    | SDel | SFin | SDone =>
               visible roots (o_fs (apply_model x flt f0 inv0)) = visible roots (phase_fs (apply_prog x) flt f0) /\
               o_inv (apply_model x flt f0 inv0) = x_inv_new x
     end.
 Proof.
-  intros roots x flt f0 inv0. rewrite <- (apply_prog_inv_new x).
-  exact (outcome_classification false roots (apply_prog x) flt f0 inv0).
+  intros roots x flt f0 inv0 Hwf Hh Hd.
+  pose proof (outcome_classification true roots (apply_prog x) flt f0 inv0 Hwf Hh Hd) as H.
+  unfold apply_model. rewrite <- (apply_prog_inv_new x).
+  destruct (o_stage (run_with_fault true (apply_prog x) flt f0 inv0)); exact H.
 Qed.
 Print Assumptions C13_outcome_classification.
 
-(* "a failure while discarding replaced content never leaves the metadata describing the old
-   layout" is FALSE of the code: delete f, rename g -> h, the first delete_any raises. *)
-Theorem C13_fault_in_deletions_refuted :
+(* the deletions fault on the former witness (delete f, rename g -> h, first delete_any raises):
+   new layout on disk AND new inventory *)
+Theorem C13_fault_in_deletions_consistent_example :
+  let o := apply_model w_x (FDel 0 EIO) w_fs w_inv0 in
+  o_stage o = SDel /\
+  visible ctl_roots (o_fs o) = visible ctl_roots (o_fs (apply_model w_x FNone w_fs w_inv0)) /\
+  o_inv o = x_inv_new w_x.
+Proof. exact fault_in_deletions_witness. Qed.
+Print Assumptions C13_fault_in_deletions_consistent_example.
+
+(* DOCUMENTATION of the defect repaired by c37d45c -- about apply_model_old, NOT about the code:
+   with apply_deletions before the metadata update the same fault left the new layout on disk
+   and the old inventory.  If the old order ever returns the correspondence run disagrees with
+   apply_model and the oracle reports the mixed state. *)
+Theorem C13_old_order_refuted :
   exists x f0 inv0 k e,
     wf f0 /\ hidden_prog ctl_roots (apply_prog x) = true /\
-    let o := apply_model x (FDel k e) f0 inv0 in
+    let o := apply_model_old x (FDel k e) f0 inv0 in
     o_stage o = SDel /\ o_dirty o = false /\
-    visible ctl_roots (o_fs o) = visible ctl_roots (o_fs (apply_model x FNone f0 inv0)) /\
+    visible ctl_roots (o_fs o) = visible ctl_roots (o_fs (apply_model_old x FNone f0 inv0)) /\
     visible ctl_roots (o_fs o) <> visible ctl_roots f0 /\
     o_inv o = inv0 /\ inv0 <> x_inv_new x.
 Proof.
   exists w_x, w_fs, w_inv0, 0, EIO.
   split; [exact w_fs_wf|]. split; [exact w_hidden|].
-  destruct fault_in_deletions_witness as (H1 & H2 & _ & H4 & H5 & H6 & H7). repeat split; assumption.
+  destruct old_order_fault_in_deletions_witness as (H1 & H2 & _ & H4 & H5 & H6 & H7). repeat split; assumption.
 Qed.
-Print Assumptions C13_fault_in_deletions_refuted.
-
-(* With the metadata update moved before apply_deletions every outcome is consistent:
-   (old disk, old inventory) or (new visible layout, new inventory), for EVERY transform and fault. *)
-Theorem C13_metadata_first_all_or_nothing :
-  forall roots x flt f0 inv0,
-    wf f0 -> hidden_prog roots (apply_prog x) = true ->
-    o_dirty (apply_model_fixed x flt f0 inv0) = false ->
-    (o_fs (apply_model_fixed x flt f0 inv0) = f0 /\ o_inv (apply_model_fixed x flt f0 inv0) = inv0) \/
-    (visible roots (o_fs (apply_model_fixed x flt f0 inv0)) = visible roots (phase_fs (apply_prog x) flt f0) /\
-     o_inv (apply_model_fixed x flt f0 inv0) = x_inv_new x).
-Proof.
-  intros roots x flt f0 inv0 Hwf Hh Hd.
-  pose proof (outcome_classification true roots (apply_prog x) flt f0 inv0 Hwf Hh Hd) as H.
-  unfold apply_model_fixed. rewrite <- (apply_prog_inv_new x).
-  destruct (o_stage (run_with_fault true (apply_prog x) flt f0 inv0)); [left | right | right | right]; exact H.
-Qed.
-Print Assumptions C13_metadata_first_all_or_nothing.
+Print Assumptions C13_old_order_refuted.
 
 (* the guard is needed, part 1: _set_executability is not journaled, so an executable-bit
    change on a file that stays in the tree survives the rollback *)
